@@ -120,11 +120,13 @@ func (c *ClientConn) closeWithErrorWithoutLock(err error) {
 }
 
 //go:norace
-func (c *ClientConn) onResponse(res *http.Response, err error) {
+func (c *ClientConn) onResponse(conn net.Conn, res *http.Response, err error) {
 	c.mux.Lock()
 	defer c.mux.Unlock()
 
-	if !c.closed && len(c.handlers) > 0 {
+	// a response of a connection that has been closed and replaced meanwhile
+	// (Close, Reset, Do) belongs to a request that has been failed already.
+	if !c.closed && c.conn == conn && len(c.handlers) > 0 {
 		head := c.handlers[0]
 		head.h(res, c.conn, err)
 
@@ -290,7 +292,9 @@ func (c *ClientConn) Do(req *http.Request, handler func(res *http.Response, conn
 			engine.mux.Unlock()
 
 			c.conn = nbc
-			processor := NewClientProcessor(c, c.onResponse)
+			processor := NewClientProcessor(c, func(res *http.Response, err error) {
+				c.onResponse(nbc, res, err)
+			})
 			parser := NewParser(nbc, engine, processor, true, nbc.Execute)
 			parser.OnClose(func(p *Parser, err error) {
 				c.CloseWithError(err)
@@ -343,7 +347,9 @@ func (c *ClientConn) Do(req *http.Request, handler func(res *http.Response, conn
 
 			nbhttpConn := &Conn{Conn: tlsConn}
 			c.conn = nbhttpConn
-			processor := NewClientProcessor(c, c.onResponse)
+			processor := NewClientProcessor(c, func(res *http.Response, err error) {
+				c.onResponse(nbhttpConn, res, err)
+			})
 			parser := NewParser(nbhttpConn, engine, processor, true, nbc.Execute)
 			parser.Conn = nbhttpConn
 			parser.Engine = engine
